@@ -136,7 +136,14 @@ def w4_source(p):
         ""])
 
 
-SOURCES = {"W1": w1_source, "W2": w2_source, "W3": w3_source, "W4": w4_source, "W5": w1_source, "W6": w1_source}
+def w7_api_source(p):
+    """A second module: a parsed function whose annotation is spelled like A's, but B is not defined there (an import
+    under TYPE_CHECKING only): its reference stays pending for good, every call re-tries and fails the same way."""
+    return "\n".join(["import utype", "from typing import List, Optional, Dict, Union, Tuple", "",
+                      "@utype.parse", f"def handle(item: {p['b_ann']} = None, n: int = 0):", "    return [item, n]", ""])
+
+
+SOURCES = {"W7": w1_source, "W1": w1_source, "W2": w2_source, "W3": w3_source, "W4": w4_source, "W5": w1_source, "W6": w1_source}
 
 
 def w6_declaration(p, name, how="class"):
@@ -163,6 +170,8 @@ def build_world(plan):
     kernel.reset_world()
     faults.register_leaves()
     mod = kernel.make_module("verif_c20_mod", SOURCES[plan["scenario"]](plan["params"]))
+    if plan["scenario"] == "W7":
+        mod.__dict__["api_"] = kernel.make_module("verif_c20_api", w7_api_source(plan["params"]))
     if plan["scenario"] == "W5":
         # steady state: every declaration has been used once before the threads start
         for warm in (lambda: mod.A(x=0, b={"y": 0}, bs=_bs_value(plan["params"], [{"y": 0}])),
@@ -195,6 +204,8 @@ def run_op(mod, op, params):
         return mod.f(*op.get("args", []), **op.get("kwargs", {}))
     if k == "gen":
         return list(mod.gen(op["n"]))
+    if k == "handle":
+        return mod.api_.handle(op["item"], n=op.get("n", 0))
     if k == "transform":
         return utype.type_transform(op["value"], getattr(mod, op["cls"]))
     if k == "local":
@@ -307,13 +318,13 @@ def _gen_ops_w1(rng, params, n):
 
 
 def generate(rng, tier):
-    sc = rng.choice(["W1", "W1", "W1", "W2", "W3", "W3", "W4", "W5", "W6", "W6"])
+    sc = rng.choice(["W1", "W1", "W1", "W2", "W3", "W3", "W4", "W5", "W6", "W6", "W7"])
     nthreads = rng.choice([2, 2, 2, 3])
     plan = {"prop": ID, "scenario": sc, "params": {}}
     counts = [rng.choice([1, 1, 2]) for _ in range(nthreads)]
     while sum(counts) > 6:
         counts[counts.index(max(counts))] -= 1
-    if sc in ("W1", "W5", "W6"):
+    if sc in ("W1", "W5", "W6", "W7"):
         p = {"b_ann": rng.choice(SPELL_OPT[:3] if sc != "W5" else SPELL_OPT), "bs_ann": rng.choice(SPELL_MANY),
              "collect": rng.random() < 0.3, "constrained": rng.random() < 0.4, "func_first": rng.random() < 0.4,
              "sub": rng.random() < 0.3}
@@ -327,6 +338,10 @@ def generate(rng, tier):
             # every thread starts with the first parse of the subclass
             for ops_ in plan["threads"]:
                 ops_[0] = {"op": "init", "cls": "SA", "data": {"x": 1, "b": {"y": 1}}}
+        if sc == "W7":
+            # one thread keeps calling the function of the other module, whose reference never resolves
+            t = rng.randrange(nthreads)
+            plan["threads"][t] = [{"op": "handle", "item": rng.choice([{"y": "1"}, {"y": 2}, None]), "n": i} for i in range(max(1, counts[t]))]
         if sc == "W6":
             # one thread declares (and maybe uses) new classes while the others make their first parses
             t = rng.randrange(nthreads)
